@@ -16,7 +16,9 @@ func ruleCniAddDel(c *Ctx, rule string) {
 		save := calls(fn, cniutilPkg+".saveNetworkInfo")
 		add := calls(fn, cniutilPkg+".DelegateAdd")
 		del := calls(fn, cniutilPkg+".CmdDel")
-		if len(save) != 1 || len(add) != 1 || len(del) != 1 {
+		if len(save) == 1 && len(add) == 1 && len(del) == 0 {
+			c.ob(rule, fn, "a failed ADD rolls back the plugins already added", add[0], false, "CmdAdd (with its same-package helpers) never calls CmdDel: a failure of plugin k leaves plugins 0..k-1 configured")
+		} else if len(save) != 1 || len(add) != 1 || len(del) != 1 {
 			c.undecided(rule, fn, "saveNetworkInfo / DelegateAdd / CmdDel", nil, "expected exactly one call of each in CmdAdd")
 		} else {
 			c.ob(rule, fn, "network list persisted before the first ADD", add[0], precedes(fn, toInstrs(save), add[0]), "saveNetworkInfo precedes DelegateAdd on every path")
@@ -120,6 +122,8 @@ func ruleCniAddDel(c *Ctx, rule string) {
 				}
 				return false
 			})
+			okLoop, whyLoop := loopLeftOnlyWhenExhausted(c, del[0].Parent(), del[0])
+			c.ob(rule, fn, "every network of the list gets its DEL (a failing one does not stop the walk)", del[0], okLoop, "the loop around DelegateDel has no break/return: after a failed DEL the lower networks are still torn down in this request, and only the failed ones are remembered for the retry "+whyLoop)
 			c.ob(rule, fn, "DEL runs in reverse order of ADD", del[0], desc, "the network given to DelegateDel is indexed by a counter that decreases by 1 each iteration")
 			// failed DELs are collected and re-saved in ADD order; the DEL fails
 			ts := errTests(del[0])
